@@ -4,6 +4,7 @@ from ..kernels import Kernel as K
 Z, B = "Z", "bool"
 A = "_asn1.py"
 P7 = ("C07", "C06", "C05")
+P6 = ("C06",)
 
 KERNELS = [
     # ---- _pack_asn1: identifier octet, low/high tag number, short/long length --------------------
@@ -61,6 +62,17 @@ KERNELS = [
     K("k_oid_shift", A, "_encode_object_identifier", ("augassign", "cmp_data", 0), [("cmp_data", Z)], Z, props=P7),
     K("k_oid_cont", A, "_encode_object_identifier", ("callarg", "result.append", 1, 0), [("cmp_data", Z)], Z, props=P7),
     K("k_oid_second", A, "_read_asn1_object_identifier", ("assign", "second_element", 0), [("first_element", Z)], Z, props=P7),
+
+    # ---- C06: versions, context tag numbers, GCM parameter constants ------------------------------
+    K("k_blob_kri_version", "_blob.py", "DPAPINGBlob.pack", ("callarg", "KEKRecipientInfo", 0, "version"), [], Z, props=P6),
+    K("k_blob_ed_version", "_blob.py", "DPAPINGBlob.pack", ("callarg", "EnvelopedData", 0, "version"), [], Z, props=P6),
+    K("k_ed_version_bad", "_pkcs7.py", "EnvelopedData.unpack", ("if", 0), [("version", Z)], B, props=P6),
+    K("k_ci_content_tagnum", "_pkcs7.py", "ContentInfo.pack", ("callarg", "ASN1Tag", 0, "tag_number"), [], Z, props=P6),
+    K("k_ci_content_tagnum_r", "_pkcs7.py", "ContentInfo.unpack", ("callarg", "ASN1Tag", 0, "tag_number"), [], Z, props=P6),
+    K("k_eci_content_tagnum", "_pkcs7.py", "EncryptedContentInfo.pack", ("callarg", "ASN1Tag", 0, "tag_number"), [], Z, props=P6),
+    K("k_eci_content_tagnum_r", "_pkcs7.py", "EncryptedContentInfo.unpack", ("callarg", "ASN1Tag", 0, "tag_number"), [], Z, props=P6),
+    K("k_gcm_icv_len", "_client.py", "_encrypt_blob", ("callarg", "parameters.write_integer", 0, 0), [], Z, props=P6),
+    K("k_gcm_nonce_len", "_crypto.py", "cek_generate", ("callarg", "os.urandom", 0, 0), [], Z, props=P6),
 ]
 
 _T = "dpapi_ng._asn1"
